@@ -91,4 +91,88 @@ theorem metadataA_coreOnly (env : Env) (k v : Text) : CoreOnly (metadataA (α :=
   unfold metadataA
   core_only
 
+/-! ### the invariant -/
+
+def ItemOK (ni nc nt nq : Nat) : Item → Prop
+  | .text _ => True
+  | .ingredient i => i < ni
+  | .cookware i => i < nc
+  | .timer i => i < nt
+  | .inlineQuantity i => i < nq
+
+theorem ItemOK.mono {ni nc nt nq ni' nc' nt' nq' : Nat} {it : Item} (h : ItemOK ni nc nt nq it)
+    (h1 : ni ≤ ni') (h2 : nc ≤ nc') (h3 : nt ≤ nt') (h4 : nq ≤ nq') : ItemOK ni' nc' nt' nq' it := by
+  cases it <;> simp only [ItemOK] at h ⊢ <;> omega
+
+/-- a pushed content is not empty and its items address existing components -/
+def ContentOK (ni nc nt nq : Nat) (ct : Content) : Prop :=
+  ct ≠ .text [] ∧ ∀ st, ct = .step st → st.items ≠ [] ∧ ∀ it ∈ st.items, ItemOK ni nc nt nq it
+
+theorem ContentOK.mono {ni nc nt nq ni' nc' nt' nq' : Nat} {ct : Content} (h : ContentOK ni nc nt nq ct)
+    (h1 : ni ≤ ni') (h2 : nc ≤ nc') (h3 : nt ≤ nt') (h4 : nq ≤ nq') : ContentOK ni' nc' nt' nq' ct :=
+  ⟨h.1, fun st hst => ⟨(h.2 st hst).1, fun it hit => ((h.2 st hst).2 it hit).mono h1 h2 h3 h4⟩⟩
+
+def stepNum : Content → Option Nat
+  | .step st => some st.number
+  | .text _ => none
+
+/-- the steps of a section are numbered 1, 2, … -/
+def Numbered (content : List Content) : Prop :=
+  content.filterMap stepNum = List.range' 1 (content.filter Content.isStep).length
+
+theorem Numbered.nil : Numbered [] := rfl
+
+theorem Numbered.push_text {content : List Content} (h : Numbered content) (t : Str) :
+    Numbered (content ++ [.text t]) := by
+  unfold Numbered at h ⊢
+  simp only [List.filterMap_append, List.filter_append, List.filterMap_cons, stepNum, List.filterMap_nil,
+    List.append_nil, List.filter_cons, Content.isStep, Bool.false_eq_true, if_false, List.filter_nil]
+  exact h
+
+theorem Numbered.push_step {content : List Content} (h : Numbered content) (items : List Item) :
+    Numbered (content ++ [.step ⟨items, (content.filter Content.isStep).length + 1⟩]) := by
+  unfold Numbered at h ⊢
+  simp only [List.filterMap_append, List.filter_append, List.filterMap_cons, stepNum, List.filterMap_nil,
+    List.filter_cons, Content.isStep, if_true, List.filter_nil, List.length_append, List.length_cons,
+    List.length_nil, h]
+  simp only [Nat.zero_add, List.range'_concat, Nat.one_mul, Nat.add_comm]
+
+structure Inv (env : Env) (s : Col α) : Prop where
+  locI : s.locIngr.size = s.ingredients.size
+  locC : s.locCw.size = s.cookware.size
+  itab : IngrTable env s.ingredients
+  ctab : CwTable env s.cookware
+  timers : ∀ t ∈ s.timers.toList, t.name.isSome = true ∨ t.quantity.isSome = true
+  secs : ∀ sec ∈ s.sections, ¬ sec.isEmpty = true ∧ Numbered sec.content ∧
+    ∀ ct ∈ sec.content, ContentOK s.ingredients.size s.cookware.size s.timers.size s.inlineQ.size ct
+  cur : Numbered s.cur.content ∧
+    ∀ ct ∈ s.cur.content, ContentOK s.ingredients.size s.cookware.size s.timers.size s.inlineQ.size ct
+  counter : s.stepCounter = (s.cur.content.filter Content.isStep).length + 1
+  blk : ∀ items, s.block = some (.step items) →
+    ∀ it ∈ items, ItemOK s.ingredients.size s.cookware.size s.timers.size s.inlineQ.size it
+
+theorem Inv.init (env : Env) : Inv (α := α) env {} where
+  locI := rfl
+  locC := rfl
+  itab := IngrTable.empty env
+  ctab := CwTable.empty env
+  timers := fun t h => by simp at h
+  secs := fun sec h => by simp at h
+  cur := ⟨Numbered.nil, fun ct h => by simp at h⟩
+  counter := rfl
+  blk := fun items h => by simp at h
+
+theorem Inv.congr {env : Env} {s s' : Col α} (h : CoreEq s s') (hi : Inv env s) : Inv env s' := by
+  obtain ⟨h1, h2, h3, h4, h5, h6, h7, h8, h9, h10⟩ := h
+  constructor
+  · rw [h7, h3]; exact hi.locI
+  · rw [h8, h4]; exact hi.locC
+  · rw [h3]; exact hi.itab
+  · rw [h4]; exact hi.ctab
+  · rw [h5]; exact hi.timers
+  · rw [h1, h3, h4, h5, h6]; exact hi.secs
+  · rw [h2, h3, h4, h5, h6]; exact hi.cur
+  · rw [h9, h2]; exact hi.counter
+  · rw [h10, h3, h4, h5, h6]; exact hi.blk
+
 end Cook
